@@ -37,6 +37,12 @@ func (fr *Frame) execCall(ins ssa.Instruction, cc *ssa.CallCommon, c *blockCtx) 
 		recv := fr.val(cc.Value)
 		fr.safetyAt("nil", c.reach, not(eq(recv.S, "nilIface")), ins)
 		key, fc := g.W.ifaceContract(cc.Value.Type(), cc.Method)
+		// a contract on the struct field holding the interface value takes precedence: "(*pkg.T).Field.Method"
+		if fk := fieldOf(cc.Value); fk != "" {
+			if ffc := g.W.contracts[fk+"."+cc.Method.Name()]; ffc != nil {
+				key, fc = fk+"."+cc.Method.Name(), ffc
+			}
+		}
 		if fc == nil {
 			if g.W.ignored(key) {
 				return fr.freshResults(sig, key)
@@ -52,6 +58,18 @@ func (fr *Frame) execCall(ins ssa.Instruction, cc *ssa.CallCommon, c *blockCtx) 
 	case *ssa.Builtin:
 		return fr.execBuiltin(v, cc, args, c, ins)
 	case *ssa.Function:
+		// a contract on the struct field holding the receiver takes precedence: "(*pkg.T).Field.Method"
+		if v.Signature.Recv() != nil && len(cc.Args) > 0 {
+			if fk := fieldOf(cc.Args[0]); fk != "" {
+				if ffc := g.W.contracts[fk+"."+v.Name()]; ffc != nil {
+					var pts []types.Type
+					for _, a := range cc.Args {
+						pts = append(pts, a.Type())
+					}
+					return fr.applyContract(ffc, fk+"."+v.Name(), v.Signature, args, pts, c, ins)
+				}
+			}
+		}
 		return fr.callStatic(v, nil, args, sig, c, ins)
 	case *ssa.MakeClosure:
 		cl := fr.closureOf[v]
@@ -303,7 +321,10 @@ func (fr *Frame) applyContract(fc *FuncContract, key string, sig *types.Signatur
 			if ci > 0 {
 				l = fmt.Sprintf("%s.%d", label, ci)
 			}
-			g.oblige("pre", fr.oname("pre@"+site, l), c.reach, env.trBool(conj), rq.Src, false)
+			f := env.trBool(conj)
+			g.oblige("pre", fr.oname("pre@"+site, l), c.reach, f, rq.Src, false)
+			// once asserted, the precondition may be used (assert-then-assume)
+			g.sc.Assume(implies(c.reach, f))
 		}
 	}
 	// havoc
@@ -373,13 +394,22 @@ func (fr *Frame) anchor(name string, c *blockCtx, results []Term) {
 		}
 		env := fr.baseEnv(c.st)
 		at := fr.curBlock
-		env.resolve = func(n string) (Term, Ty, bool) {
+		env.resolve = func(n string, st2 *State) (Term, Ty, bool) {
 			if strings.HasPrefix(n, "$r") {
 				if k, err := strconv.Atoi(n[2:]); err == nil && k < len(results) {
 					return results[k], Ty{Spec: results[k].Sort}, true
 				}
 			}
-			return fr.resolveLocalAt(n, at, c.st)
+			return fr.resolveLocalAt(n, at, st2)
+		}
+		if len(a.Havoc) > 0 {
+			for _, loc := range a.Havoc {
+				henv := *env
+				henv.old = c.st.clone()
+				fr.havocLoc(&henv, loc, c.st)
+			}
+			g.usedAssumed["rely(havoc)@"+funcKey(fr.fn)+": "+a.C.Src] = true
+			continue
 		}
 		f := env.trBool(a.C.E)
 		label := a.C.Label
@@ -512,34 +542,18 @@ func (g *Gen) havocCell(st *State, a string, t types.Type) {
 	v := g.sc.Fresh("hv", s)
 	g.sc.Assume(g.typeInv(v.S, t))
 	g.assumeOld(v, g.curBase)
-	g.writeCell(st, g.heapKeyFor(s), s, a, v.S)
+	g.writeCell(st, g.heapKeyT(t), s, a, v.S)
 }
 
 // havocElems havocs all elements of backing array arr.
 func (g *Gen) havocElems(st *State, arr string, et types.Type) {
-	var leaves func(t types.Type) []string
-	leaves = func(t types.Type) []string {
-		if u, ok := isStruct(t); ok {
-			var out []string
-			for i := 0; i < u.NumFields(); i++ {
-				out = append(out, leaves(u.Field(i).Type())...)
-			}
-			return out
-		}
-		return []string{g.sortOf(t)}
-	}
-	seen := map[string]bool{}
-	for _, s := range leaves(et) {
-		if seen[s] {
-			continue
-		}
-		seen[s] = true
-		key := g.heapKeyFor(s)
+	keys, _, sorts := g.leafGroups(et)
+	for _, key := range keys {
+		s := sorts[key]
 		old := g.heap(st, key, s)
 		nh := g.sc.Fresh(key, old.Sort)
 		g.heapWF(nh.S, s, g.curBase, false)
 		g.sc.Assume(fmt.Sprintf("(forall ((r Ref)) (! (or (= (elemArr r) %s) (= (select %s r) (select %s r))) :pattern ((select %s r))))", arr, nh.S, old.S, nh.S))
-		// more precise: only addresses below arr change
 		st.heaps[key] = nh
 		g.logWholeWrite(key, s, "elems:"+arr)
 	}
@@ -668,31 +682,33 @@ func (fr *Frame) execAppend(cc *ssa.CallCommon, args []Term, c *blockCtx) Term {
 	return res
 }
 
-// leafGroups groups the leaf cells of element type et by heap sort.
-func (g *Gen) leafGroups(et types.Type) (sorts []string, paths map[string][]func(string) string) {
+// leafGroups groups the leaf cells of element type et by heap component.
+func (g *Gen) leafGroups(et types.Type) (keys []string, paths map[string][]func(string) string, sorts map[string]string) {
 	paths = map[string][]func(string) string{}
+	sorts = map[string]string{}
 	g.forLeaves(et, func(path func(string) string, lt types.Type) {
-		s := g.sortOf(lt)
-		if _, ok := paths[s]; !ok {
-			sorts = append(sorts, s)
+		k := g.heapKeyT(lt)
+		if _, ok := paths[k]; !ok {
+			keys = append(keys, k)
 		}
-		paths[s] = append(paths[s], path)
+		sorts[k] = g.sortOf(lt)
+		paths[k] = append(paths[k], path)
 	})
 	return
 }
 
 // copyElemsQuant: under cond, elements [0,len(src)) of dst's array equal src's elements (dst array is fresh).
 func (g *Gen) copyElemsQuant(st *State, dst, src string, et types.Type, cond string) {
-	sorts, paths := g.leafGroups(et)
-	for _, s := range sorts {
-		key := g.heapKeyFor(s)
+	keys, paths, sortOfKey := g.leafGroups(et)
+	for _, key := range keys {
+		s := sortOfKey[key]
 		old := g.heap(st, key, s)
 		nh := g.sc.Fresh(key, old.Sort)
 		g.heapWF(nh.S, s, g.allocTop(), false)
 		// frame: everything outside the fresh array unchanged; inside: copied
 		g.sc.Assume(fmt.Sprintf("(forall ((r Ref)) (! (or (and %s (= (elemArr r) (sarr %s))) (= (select %s r) (select %s r))) :pattern ((select %s r))))",
 			cond, dst, nh.S, old.S, nh.S))
-		for _, path := range paths[s] {
+		for _, path := range paths[key] {
 			di := path(fmt.Sprintf("(Elem (sarr %s) k)", dst))
 			si := path(fmt.Sprintf("(Elem (sarr %s) (+ (soff %s) k))", src, src))
 			g.sc.Assume(implies(cond, fmt.Sprintf("(forall ((k Int)) (! (=> (and (<= 0 k) (< k (slen %s))) (= (select %s %s) (select %s %s))) :pattern ((select %s %s))))",
@@ -706,15 +722,15 @@ func (g *Gen) copyElemsQuant(st *State, dst, src string, et types.Type, cond str
 
 // appendElemsQuant writes the elements of add after the first len(s) elements of res.
 func (g *Gen) appendElemsQuant(st *State, res, s, add string, et types.Type) {
-	sorts, paths := g.leafGroups(et)
-	for _, so := range sorts {
-		key := g.heapKeyFor(so)
+	keys, paths, sortOfKey := g.leafGroups(et)
+	for _, key := range keys {
+		so := sortOfKey[key]
 		old := g.heap(st, key, so)
 		nh := g.sc.Fresh(key, old.Sort)
 		g.heapWF(nh.S, so, g.allocTop(), false)
 		inRange := fmt.Sprintf("(and (= (elemArr r) (sarr %s)) (<= (+ (soff %s) (slen %s)) (elemIdx r)) (< (elemIdx r) (+ (soff %s) (slen %s))))", res, res, s, res, res)
 		g.sc.Assume(fmt.Sprintf("(forall ((r Ref)) (! (or %s (= (select %s r) (select %s r))) :pattern ((select %s r))))", inRange, nh.S, old.S, nh.S))
-		for _, path := range paths[so] {
+		for _, path := range paths[key] {
 			di := path(fmt.Sprintf("(Elem (sarr %s) (+ (soff %s) (slen %s) k))", res, res, s))
 			si := path(fmt.Sprintf("(Elem (sarr %s) (+ (soff %s) k))", add, add))
 			g.sc.Assume(fmt.Sprintf("(forall ((k Int)) (! (=> (and (<= 0 k) (< k (slen %s))) (= (select %s %s) (select %s %s))) :pattern ((select %s %s))))",
@@ -750,15 +766,15 @@ func (fr *Frame) execCopy(cc *ssa.CallCommon, args []Term, c *blockCtx) Term {
 	}
 	et := cc.Args[0].Type().Underlying().(*types.Slice).Elem()
 	n := g.sc.Define("copyn", Term{ite("(<= (slen "+dst.S+") (slen "+src.S+"))", "(slen "+dst.S+")", "(slen "+src.S+")"), SInt})
-	sorts, paths := g.leafGroups(et)
-	for _, so := range sorts {
-		key := g.heapKeyFor(so)
+	keys, paths, sortOfKey := g.leafGroups(et)
+	for _, key := range keys {
+		so := sortOfKey[key]
 		old := g.heap(c.st, key, so)
 		nh := g.sc.Fresh(key, old.Sort)
 		g.heapWF(nh.S, so, g.curBase, false)
 		inRange := fmt.Sprintf("(and (= (elemArr r) (sarr %s)) (<= (soff %s) (elemIdx r)) (< (elemIdx r) (+ (soff %s) %s)))", dst.S, dst.S, dst.S, n.S)
 		g.sc.Assume(fmt.Sprintf("(forall ((r Ref)) (! (or %s (= (select %s r) (select %s r))) :pattern ((select %s r))))", inRange, nh.S, old.S, nh.S))
-		for _, path := range paths[so] {
+		for _, path := range paths[key] {
 			di := path(fmt.Sprintf("(Elem (sarr %s) (+ (soff %s) k))", dst.S, dst.S))
 			si := path(fmt.Sprintf("(Elem (sarr %s) (+ (soff %s) k))", src.S, src.S))
 			g.sc.Assume(fmt.Sprintf("(forall ((k Int)) (! (=> (and (<= 0 k) (< k %s)) (= (select %s %s) (select %s %s))) :pattern ((select %s %s))))",
@@ -934,4 +950,29 @@ func (fr *Frame) crashPoints(fc *FuncContract, env *Env, old *State, c *blockCtx
 	}
 	// the state after the call is itself a crash point
 	assertOn(c.st, "true", "")
+}
+
+// fieldOf: if v is the value of a field of a named struct (loaded through a pointer), return "(*pkg.T).Field".
+func fieldOf(v ssa.Value) string {
+	u, ok := v.(*ssa.UnOp)
+	if !ok {
+		return ""
+	}
+	fa, ok := u.X.(*ssa.FieldAddr)
+	if !ok {
+		return ""
+	}
+	pt, ok := fa.X.Type().Underlying().(*types.Pointer)
+	if !ok {
+		return ""
+	}
+	n, ok := types.Unalias(pt.Elem()).(*types.Named)
+	if !ok || n.Obj().Pkg() == nil {
+		return ""
+	}
+	st, ok := n.Underlying().(*types.Struct)
+	if !ok {
+		return ""
+	}
+	return "(*" + n.Obj().Pkg().Path() + "." + n.Obj().Name() + ")." + st.Field(fa.Field).Name()
 }
